@@ -25,5 +25,9 @@ CHECK = {
              # goroutine timing can in principle change how raft groups a burst when rapid re-runs a case; every
              # verdict is a fact about the log actually written, so an unreproduced failure still counts
              flaky_is_violation=True),
+        unit("snapshot-large", "raft", ["raft/c09_replicas_test.go", "raft/c09_snaplarge_test.go"], "^TestVerif_C09_SnapshotLarge$",
+             quick={"checks": 4, "shards": 1, "cap": 600},
+             thorough={"checks": 6, "shards": 8, "cap": 2400},
+             no_ulimit=True),
     ],
 }
